@@ -60,3 +60,34 @@ Definition check_restore (c : restore_case) : N :=
   let '(pre, post, ev, dfb, temps) := c in
   let keep (m : smap) := filter (fun x => negb (exception ev dfb temps (fst x))) m in
   code true (smap_eqb (keep pre) (keep post)).
+
+(* ---- Executer level (harness/cmd/c05e, real consensus.Executer through harness/internal/exh): the staged
+   operations of liskbft are not visible, so the consensus-store part is checked through the stored diff:
+   (pre, block, events, fh, remove_temp, keep, diff_enc, prune bound, decoded stored diff, post) *)
+Definition eapply_case : Type :=
+  (smap * blk * option val * N * bool * Z * val * option N * (list key * list kv * list kv) * smap)%type.
+
+Definition nonstate_part (m : smap) : smap := filter (fun x => negb (is_prefix [pfxState] (fst x))) m.
+Definition is_none (o : option val) : bool := match o with None => true | Some _ => false end.
+
+Definition check_eapply (c : eapply_case) : N :=
+  let '(pre, b, events, fh, rt, keep, diff_enc, prune, (a, u, dl), post) := c in
+  let rest := [(kDiff (b_height b), Some diff_enc)] ++ prune_diffs pre prune ++ save_block pre b events fh rt keep in
+  (* the diff applied forward with the values found in post *)
+  let forward := map (fun k => (k, lookup post k)) (a ++ map fst u) ++ map (fun x => (fst x, @None val)) dl in
+  let agree_model :=
+    sortedb pre
+    && smap_eqb (nonstate_part post) (nonstate_part (apply_writes rest pre))
+    && smap_eqb (state_part post) (state_part (apply_writes forward pre)) in
+  let diff_keys := a ++ map fst u ++ map fst dl in
+  let changed (k : key) := negb (opt_eqb (lookup pre k) (lookup post k)) in
+  let agree_spec :=
+    (* the stored diff classifies exactly the changed consensus-store keys, with their previous values *)
+    forallb (fun k => is_none (lookup pre k) && negb (is_none (lookup post k)) && is_prefix [pfxState] k) a
+    && forallb (fun x => opt_eqb (lookup pre (fst x)) (Some (snd x)) && negb (is_none (lookup post (fst x)))) u
+    && forallb (fun x => opt_eqb (lookup pre (fst x)) (Some (snd x)) && is_none (lookup post (fst x))) dl
+    && forallb (fun x => negb (changed (fst x)) || existsb (keqb (fst x)) diff_keys) (state_part pre ++ state_part post)
+    && opt_eqb (lookup post (kHeader b)) (Some (b_header b))
+    && opt_eqb (lookup post (kHeight (b_height b))) (Some (b_id b))
+    && opt_eqb (lookup post (kDiff (b_height b))) (Some diff_enc) in
+  code agree_model agree_spec.
